@@ -29,7 +29,7 @@ mv $WT/zz_demo_test.go /tmp/zz_demo_$NAME.go; mv $WT/OUT $WT/_OUT
 go test -mod=mod -vet=off -count=1 -timeout 25m ./... > $OUT/suite_with.log 2>&1; RS=$?
 # the Go 1.25.0 runtime occasionally livelocks in its GC under synctest on a loaded machine (one test spins until the
 # 25 min timeout), and TestJSONTracer/TestPBTracer share fixed /tmp paths with concurrent runs: rerun once in those cases
-if [ $RS -ne 0 ] && grep -q "test timed out\|signal: \|TestJSONTracer\|TestPBTracer" $OUT/suite_with.log; then
+if [ $RS -ne 0 ] && grep -q "test timed out\|ran too long\|signal: \|TestJSONTracer\|TestPBTracer" $OUT/suite_with.log; then
   cp $OUT/suite_with.log $OUT/suite_with.first_attempt.log
   go test -mod=mod -vet=off -count=1 -timeout 25m ./... > $OUT/suite_with.log 2>&1; RS=$?
 fi
